@@ -60,8 +60,10 @@ def _simple_send_tensors(
         # sync tensors to all ranks
         dist.all_gather(gathered_result, tensor, group=group)
     else:
-        # sync tensors only to specified rank
-        dist.gather(tensor, gathered_result, dst=rank, group=group)
+        # sync tensors only to specified rank; ``rank`` is a rank of ``group``,
+        # ``dst`` of dist.gather is a global rank
+        dst = dist.get_global_rank(group, rank) if group is not None else rank
+        dist.gather(tensor, gathered_result, dst=dst, group=group)
 
     return gathered_result
 
@@ -370,9 +372,15 @@ def _sync_obj_states(
         # if rank not specified, sync all ranks
         dist.all_gather_object(gathered_obj_data, my_state_data, group=process_group)
     else:
-        # if rank is specified, send object only to that rank
+        # if rank is specified, send object only to that rank; ``rank`` is a rank of
+        # ``process_group``, ``dst`` of dist.gather_object is a global rank
+        dst = (
+            dist.get_global_rank(process_group, rank)
+            if process_group is not None
+            else rank
+        )
         dist.gather_object(
-            my_state_data, gathered_obj_data, dst=rank, group=process_group
+            my_state_data, gathered_obj_data, dst=dst, group=process_group
         )
 
     if create_obj_gather_list:
